@@ -354,6 +354,8 @@ def monitors_comm(s, drv, rep):
     if panic:
         fails["C01"].append("the library panicked")
     if v in ("deadlock", "fuel") or hang or panic:
+        if s["piped"][0] and world.get("input_left") == "0" and world.get("pin_wr") == "true" and v == "deadlock":
+            fails["C02"].append("the whole input was written but stdin was never closed: the child waits for end-of-file forever")
         return fails, div, facts
     inp = dec_data(s["input"]) if s["piped"][0] else b""
     wrote_out = units_bytes(world.get("wrote_out", "-")) or b""
